@@ -633,8 +633,7 @@ Proof.
   intros SC Re. pose proof (single_consumer_invariant _ _ _ SC Re) as I.
   pose proof (i_c _ I). pose proof (i_w _ I). pose proof (i_p2 _ I). pose proof (i_pn _ I). pose proof (i_g _ I).
   pose proof (consumers_bound (threads s)). pose proof (nGL_nonneg (threads s)).
-  unfold kUpdating, kReady. repeat split; try lia.
-  destruct (Z.eq_dec (word s) 2); lia.
+  unfold kUpdating, kReady. repeat split; lia.
 Qed.
 
 (* ====================================================================================================
